@@ -106,6 +106,9 @@ class C08(Check):
         except B.RefError as e:
             labels.add("domain:" + e.kind)
             return labels
+        except R.Ambiguous:
+            labels.add("domain:alias-namespace-ambiguous")
+            return labels
         labels.add("expect:" + kind)
         if case["via"] == "schemaless":
             o = outcome(fastavro.schemaless_reader, io.BytesIO(blob), W, Rs)
